@@ -139,7 +139,7 @@ func runC08(c *Ctx, r *Rec) {
 			r.ok("D1-unordered-agreement", construct, c.pos(fd.Pos()), "no Equal verdict for unordered operands")
 		}
 	}
-	r.floor("D1-unordered-agreement", 1)
+	r.floorSoft("D1-unordered-agreement", "agent.collator/rank-leaves", "no rank leaf over an unordered type could be bound")
 
 	// ---- D2 size before content + mirror operands in the compare-side composites
 	ncomp := 0
@@ -468,6 +468,37 @@ func checkGuardedRecursion(c *Ctx, r *Rec, info *types.Info, n *types.Named, ms 
 		}
 	}
 	steppers := depthSteppers(c, info, ms, depthF)
+	// bracketing helpers: functions that call a function parameter with the counter stepped up
+	// (atNextDepth(collator, func() R) R): what runs inside the literal handed to them runs one level down
+	bracketers := map[*types.Func]int{}
+	for _, hd := range c.allFuncDecls(c.roleOf(n.Obj().Pkg())) {
+		if hd.Body == nil || c.infoFor(hd) != info {
+			continue
+		}
+		hps := paramObjs(info, hd)
+		hg := newFG(info, hd.Body)
+		hdeltas := depthDeltasWith(hg, info, depthF, steppers)
+		inspectNoLit(hd.Body, func(x ast.Node) bool {
+			call, ok := x.(*ast.CallExpr)
+			if !ok {
+				return true
+			}
+			id, ok := ast.Unparen(call.Fun).(*ast.Ident)
+			if !ok {
+				return true
+			}
+			for pi, p := range hps {
+				if info.Uses[id] == types.Object(p) {
+					if d, ok := hdeltas[nodeOf(hg, call)]; ok && d >= 1 {
+						if fn := c.funcOf(hd); fn != nil {
+							bracketers[fn.Origin()] = pi
+						}
+					}
+				}
+			}
+			return true
+		})
+	}
 	for _, name := range names {
 		fd := ms[name]
 		params := paramObjs(info, fd)
@@ -603,10 +634,23 @@ func checkGuardedRecursion(c *Ctx, r *Rec, info *types.Info, n *types.Named, ms 
 			if an := anchorOf(node); an != node {
 				n0 := len(edges)
 				addEdge0(an, callee, how+" in a function literal", false)
+				bracketed := false
+				if ac, ok := an.(*ast.CallExpr); ok {
+					if cf := calleeOf(info, ac); cf != nil {
+						if pi, ok := bracketers[cf.Origin()]; ok && pi < len(ac.Args) {
+							if lit, ok := ast.Unparen(ac.Args[pi]).(*ast.FuncLit); ok && lit == enclosingLit(fd.Body, node) {
+								bracketed = true
+							}
+						}
+					}
+				}
 				for i := n0; i < len(edges); i++ {
 					edges[i].pos = node.Pos()
 					if cx, ok := node.(*ast.CallExpr); ok {
 						edges[i].call = cx
+					}
+					if bracketed {
+						edges[i].inc = true
 					}
 				}
 				return
@@ -949,8 +993,17 @@ func accessorNames(c *Ctx, info *types.Info, fd *ast.FuncDecl, e ast.Expr, depth
 				if bt, ok := v.Type().Underlying().(*types.Basic); ok && bt.Info()&types.IsNumeric != 0 {
 					return true // a position or a count, not a value that is descended into
 				}
-				if init := initOfIn(info, fd.Body, y); init != nil {
+				init := initOfIn(info, fd.Body, y)
+				if init == nil {
+					init = initOfDeep(info, fd.Body, y) // a local of a function literal
+				}
+				if init != nil {
 					out = append(out, accessorNames(c, info, fd, init, depth+1)...)
+				} else if origins := funcParamResultOrigins(c, info, fd, v); len(origins) > 0 {
+					// one of the results of calling a function parameter: what the callers' functions return there
+					for _, o := range origins {
+						out = append(out, accessorNames(c, info, o.fd, o.e, depth+1)...)
+					}
 				} else if origins := closureParamOrigins(c, info, fd, v); len(origins) > 0 {
 					// a parameter of a function literal handed to a helper: what the helper calls it with
 					for _, o := range origins {
@@ -974,6 +1027,20 @@ func accessorNames(c *Ctx, info *types.Info, fd *ast.FuncDecl, e ast.Expr, depth
 			if cf := calleeOf(info, y); cf != nil {
 				if d := c.declOf(cf); d != nil {
 					if !cf.Exported() && d.Body != nil && c.infoFor(d) == info {
+						// a method name handed to a helper that calls it reflectively
+						hps := paramObjs(info, d)
+						ast.Inspect(d.Body, func(z ast.Node) bool {
+							if _, mn, mc, ok := methodCall(z); ok && mn == "MethodByName" && len(mc.Args) == 1 {
+								for pi, hp := range hps {
+									if isObj(info, mc.Args[0], hp) && pi < len(y.Args) {
+										if lit, ok := ast.Unparen(y.Args[pi]).(*ast.BasicLit); ok && lit.Kind == token.STRING && methodNameLit.MatchString(lit.Value) {
+											out = append(out, lit.Value)
+										}
+									}
+								}
+							}
+							return true
+						})
 						ast.Inspect(d.Body, func(z ast.Node) bool {
 							if rs, ok := z.(*ast.ReturnStmt); ok {
 								for _, res := range rs.Results {
@@ -983,14 +1050,15 @@ func accessorNames(c *Ctx, info *types.Info, fd *ast.FuncDecl, e ast.Expr, depth
 							return true
 						})
 					}
-				} else if se, ok := ast.Unparen(y.Fun).(*ast.SelectorExpr); ok && cf.Pkg() != nil && c.roleOf(cf.Pkg()) == "" {
+				} else if se, ok := ast.Unparen(y.Fun).(*ast.SelectorExpr); ok && cf.Pkg() != nil && c.roleOf(cf.Pkg()) == "" && descentAccessors[se.Sel.Name] {
 					out = append(out, se.Sel.Name)
+					// the name of a method called reflectively ("AsArray", "GetNext")
+					if se.Sel.Name == "MethodByName" && len(y.Args) == 1 {
+						if lit, ok := ast.Unparen(y.Args[0]).(*ast.BasicLit); ok && lit.Kind == token.STRING && methodNameLit.MatchString(lit.Value) {
+							out = append(out, lit.Value)
+						}
+					}
 				}
-			}
-		case *ast.BasicLit:
-			// names of methods called reflectively ("AsArray", "GetNext"); other text is irrelevant
-			if y.Kind == token.STRING && methodNameLit.MatchString(y.Value) {
-				out = append(out, y.Value)
 			}
 		}
 		return true
@@ -999,6 +1067,14 @@ func accessorNames(c *Ctx, info *types.Info, fd *ast.FuncDecl, e ast.Expr, depth
 }
 
 var methodNameLit = regexp.MustCompile(`^"[A-Z][A-Za-z0-9]*"$`)
+
+// descentAccessors: the reflect accessors that yield a part of a value (or a way to one).  What
+// only measures or tests a value (Len, NumField, Kind, IsNil, Type, CanInterface ...) is no descent.
+var descentAccessors = map[string]bool{
+	"Elem": true, "Field": true, "FieldByName": true, "Index": true, "Slice": true,
+	"MapIndex": true, "MapKeys": true, "MapRange": true, "Key": true, "Value": true,
+	"Method": true, "MethodByName": true, "Call": true, "Interface": true, "ValueOf": true,
+}
 
 func nodeOf(g *FG, n ast.Node) ast.Node {
 	p, ok := g.locate(n)
@@ -1194,4 +1270,115 @@ func isLenMinusOne(info *types.Info, e ast.Expr, isLen func(ast.Expr) bool) bool
 	}
 	tv, ok := info.Types[be.Y]
 	return ok && tv.Value != nil && tv.Value.String() == "1"
+}
+
+// funcParamResultOrigins: v is the k-th variable of  a, b, c := P(...)  where P is a function-typed
+// parameter of fd; the origins are the k-th results returned by the function literals that the
+// callers of fd (in the same package) hand in for P.
+func funcParamResultOrigins(c *Ctx, info *types.Info, fd *ast.FuncDecl, v *types.Var) []exprIn {
+	var out []exprIn
+	k, pidx := -1, -1
+	ps := paramObjs(info, fd)
+	ast.Inspect(fd.Body, func(x ast.Node) bool {
+		lhs, rhs, ok := multiDef(x)
+		if !ok {
+			return true
+		}
+		call, ok := ast.Unparen(rhs).(*ast.CallExpr)
+		if !ok {
+			return true
+		}
+		id, ok := ast.Unparen(call.Fun).(*ast.Ident)
+		if !ok {
+			return true
+		}
+		for pi, p := range ps {
+			if info.Uses[id] == types.Object(p) {
+				for i, l := range lhs {
+					if identObj(info, l) == types.Object(v) {
+						k, pidx = i, pi
+					}
+				}
+			}
+		}
+		return true
+	})
+	if k < 0 {
+		return nil
+	}
+	fn := c.funcOf(fd)
+	if fn == nil {
+		return nil
+	}
+	for _, role := range []string{"agent", "collection", "cdcn", "module"} {
+		if c.info(role) != info {
+			continue
+		}
+		for _, cfd := range c.allFuncDecls(role) {
+			if cfd.Body == nil {
+				continue
+			}
+			ast.Inspect(cfd.Body, func(x ast.Node) bool {
+				call, ok := x.(*ast.CallExpr)
+				if !ok || pidx >= len(call.Args) {
+					return true
+				}
+				if cf := calleeOf(info, call); cf == nil || cf.Origin() != fn.Origin() {
+					return true
+				}
+				arg := ast.Unparen(call.Args[pidx])
+				if id, ok := arg.(*ast.Ident); ok {
+					if init := initOf(info, cfd, id); init != nil {
+						arg = ast.Unparen(init)
+					}
+				}
+				lit, ok := arg.(*ast.FuncLit)
+				if !ok {
+					return true
+				}
+				inspectNoLit(lit.Body, func(y ast.Node) bool {
+					if rs, ok := y.(*ast.ReturnStmt); ok && k < len(rs.Results) {
+						out = append(out, exprIn{cfd, rs.Results[k]})
+					}
+					return true
+				})
+				return true
+			})
+		}
+	}
+	return out
+}
+
+// initOfDeep: like initOfIn, but also finds the single definition of a variable that is local
+// to a function literal inside n.
+func initOfDeep(info *types.Info, n ast.Node, id *ast.Ident) ast.Expr {
+	obj := info.Uses[id]
+	if obj == nil {
+		return nil
+	}
+	var init ast.Expr
+	cnt := 0
+	ast.Inspect(n, func(x ast.Node) bool {
+		switch s := x.(type) {
+		case *ast.ValueSpec:
+			for i, nm := range s.Names {
+				if info.Defs[nm] == obj && i < len(s.Values) {
+					init = ast.Unparen(s.Values[i])
+					cnt++
+				}
+			}
+		case *ast.AssignStmt:
+			for i, l := range s.Lhs {
+				if lid, ok := l.(*ast.Ident); ok && (info.Defs[lid] == obj || info.Uses[lid] == obj) && len(s.Lhs) == len(s.Rhs) {
+					init = ast.Unparen(s.Rhs[i])
+					cnt++
+				}
+			}
+		}
+		return true
+	})
+	if cnt == 1 {
+		return init
+	}
+	return nil
 }
